@@ -51,9 +51,19 @@ def prec_value(p):
     return True, float(p)
 
 
-def prec_units(p):
+def ubits(case):
+    """lengths of a case are integers in units of 2**-ubits (default: the 2**-10 grid of dv.trees; the fine-grid
+    ages cases use 2**-40 so that deviations of about 1e-9 on trees of height ~4 are exact binary64 values too)"""
+    return case.get("ubits", 10)
+
+
+def funit(ub):
+    return Fraction(1, 2 ** ub)
+
+
+def prec_units(p, ub=10):
     """case encoding -> None (check disabled) | integer number of units deciding `d > precision`
-    exactly for every integer d:  d*UNIT > p  <=>  d > floor(p/UNIT)"""
+    exactly for every integer d:  d*unit > p  <=>  d > floor(p/unit)"""
     if p in ("none", "false"):
         return None
     if p == "default":
@@ -63,20 +73,20 @@ def prec_units(p):
         v = Fraction(float(p))
     if v < 0:
         return None
-    return int(v / FUNIT // 1)
+    return int(v / funit(ub) // 1)
 
 
-def c_prec(p):
+def c_prec(p, ub=10):
     if p == "none":
         return "PNone"
     if p == "false":
         return "PFalse"
     if p == "default":
-        return "(PNum %s)" % cz(prec_units(p))
+        return "(PNum %s)" % cz(prec_units(p, ub))
     v = Fraction(float(p))
     if v < 0:
         return "(PNum (-1))"
-    return "(PNum %s)" % cz(int(v / FUNIT // 1))
+    return "(PNum %s)" % cz(int(v / funit(ub) // 1))
 
 
 # ----------------------------------------------------------------------------------------------
@@ -89,9 +99,13 @@ def strip(t):
     return t
 
 
-def gen_ultrametric(rng, nleaves, shape=None, unif=0.0):
+def gen_ultrametric(rng, nleaves, shape=None, unif=0.0, scale=1):
+    """scale: every node-age step is multiplied by it (time scale of the tree: 1, 1e3, 1e7 on the 2**-10 grid, i.e.
+    node ages up to ~1e8; 2**30 on the 2**-40 grid)"""
     t = trees.gen_tree(rng, nleaves, shape=shape, lengths="none", unifurcations=unif)
     steps = rng.choice([[256, 512, 1024, 1536], [1, 2, 3, 5, 8], [0, 256, 256, 512], [1024], [3, 700, 4096]])
+    if scale != 1:
+        steps = [x * scale for x in steps]
 
     def assign(nd):
         if not nd["kids"]:
@@ -124,6 +138,16 @@ def perturb(rng, t, pu):
 PRECS = ["default", "none", "false", -1.0, -0.5 * UNIT, 0, 0.0, UNIT, 2 * UNIT, 3 * UNIT, 256 * UNIT, 512 * UNIT,
          1024 * UNIT, 0.0015, 1e-5, 0.5, 1.0, 10 * UNIT]
 
+# time-scale regimes: the ultrametricity precision is an ABSOLUTE bound whatever the scale of the tree
+#   "large"  2**-10 grid, node-age steps x 1e3 or x 1e7 (ages up to ~4e8): deviations of 1..3 units (about 1e-3)
+#            are far below 1e-9 * age but above the precisions 0 / 1e-9 / 1e-5 / 1e-3
+#   "fine"   2**-40 grid, node-age steps of 0.25..4 (height ~4): deviations of 1 unit (9e-13) and of about 1100
+#            units (1e-9) around the precisions 0 and 1e-9
+# every length, age and difference stays an exact binary64 value in both (< 2**53 units)
+SCALE_PRECS = ["default", "default", 0, 0.0, 1e-9, 1e-9, 1e-3, 1e-5, 0.0015, UNIT, "none"]
+FINE_BITS = 40
+FINE_PRECS = [0, 0.0, 1e-9, 1e-9, 2e-9, "default", 1e-5, 1e-12, "none"]
+
 
 def gen_tree_any(rng, maxleaves):
     n = rng.randint(1, maxleaves)
@@ -144,7 +168,41 @@ def gen_tree_any(rng, maxleaves):
     return t, kind
 
 
+def gen_scaled_ages_case(rng, maxleaves):
+    """ultrametric tree at a large time scale / on the fine grid, one or two edges perturbed around the precision"""
+    n = rng.randint(2, maxleaves)
+    unif = rng.choice([0.0, 0.0, 0.0, 0.15])
+    case = {}
+    if rng.random() < 0.5:
+        scale = rng.choice([10 ** 3, 10 ** 7, 10 ** 7])
+        t = gen_ultrametric(rng, n, unif=unif, scale=scale)
+        p = rng.choice(SCALE_PRECS)
+        ub = 10
+        kind = "scaled-1e%d" % (3 if scale == 10 ** 3 else 7)
+    else:
+        ub = FINE_BITS
+        t = gen_ultrametric(rng, n, unif=unif, scale=2 ** (FINE_BITS - 10))
+        p = rng.choice(FINE_PRECS)
+        case["ubits"] = ub
+        kind = "fine-grid"
+    pu = prec_units(p, ub)
+    r = rng.random()
+    if r < 0.8:
+        kind += "-perturbed-" + perturb(rng, t, pu)
+        if rng.random() < 0.25:
+            kind += "+" + perturb(rng, t, pu)
+    f = rng.random()
+    fmax, fmin = (True, False) if f < 0.05 else (False, True) if f < 0.1 else (False, False)
+    case.update({"kind": "ages", "gen": kind, "tree": t, "prec": p, "fmax": fmax, "fmin": fmin,
+                 "io": rng.random() < 0.35,
+                 "mn": rng.choice([0, 0, 0, None, 256, -1024, 1]), "mn_default": rng.random() < 0.3,
+                 "eon": rng.random() < 0.4})
+    return case
+
+
 def gen_ages_case(rng, maxleaves):
+    if rng.random() < 0.25:
+        return gen_scaled_ages_case(rng, maxleaves)
     t, kind = gen_tree_any(rng, maxleaves)
     p = rng.choice(PRECS)
     pu = None
@@ -247,13 +305,38 @@ def fixed_cases():
 # observation of the implementation
 # ----------------------------------------------------------------------------------------------
 
-def build(spec):
+def build(spec, ub=10):
     import dendropy
     n = len(trees.leaves(spec))
     ns = dendropy.TaxonNamespace()
     objs = [ns.new_taxon("t%d" % k) for k in range(max(n, 1) + 1)]
     tree, by_id = trees.build_dendropy(spec, objs, is_rooted=True, namespace=ns)
+    if ub != 10:
+        u = 2.0 ** -ub
+        for nd in trees.preorder(spec):
+            by_id[nd["id"]].edge.length = None if nd["len"] is None else units_of(nd["len"] * u, ub) * u
     return tree, by_id
+
+
+def units_of(x, ub):
+    """float -> exact integer number of 2**-ub units (raises when off the grid or beyond exact binary64 range)"""
+    if x is None:
+        return None
+    fr = Fraction(float(x)) * 2 ** ub
+    if fr.denominator != 1 or abs(fr.numerator) >= 2 ** 53:
+        raise ValueError("%r is not an exact multiple of 2**-%d below 2**53 units" % (x, ub))
+    return fr.numerator
+
+
+def dump_units(tree, spec, by_id, ub):
+    """the tree in spec form with lengths in 2**-ub units (structure must be untouched: same child lists)"""
+    def walk(s):
+        nd = by_id[s["id"]]
+        if [getattr(c, "_dv_id", None) for c in nd._child_nodes] != [k["id"] for k in s["kids"]]:
+            raise RuntimeError("tree damaged: child list of node %d changed" % s["id"])
+        return {"id": s["id"], "taxon": s["taxon"], "label": s["label"], "len": units_of(nd.edge.length, ub),
+                "kids": [walk(k) for k in s["kids"]]}
+    return walk(spec)
 
 
 def cerr_enum(e):
@@ -288,6 +371,9 @@ def calc_kwargs(case):
 
 def observe_ages(case):
     spec = case["tree"]
+    ub = ubits(case)
+    if ub != 10:
+        return observe_ages_fine(case, ub)
     tree, by_id = build(spec)
     post = [nd["id"] for nd in trees.postorder(spec)]
     kw = calc_kwargs(case)
@@ -325,6 +411,45 @@ def observe_ages(case):
             if problems:
                 raise RuntimeError("tree damaged: %r" % problems)
             return d
+        obs["setlen"] = attempt(run)
+    else:
+        obs["setlen"] = None
+    return obs
+
+
+def observe_ages_fine(case, ub):
+    """observe_ages for lengths on the 2**-ub grid (same observation format, units of 2**-ub)"""
+    spec = case["tree"]
+    u = 2.0 ** -ub
+    un = lambda x: units_of(x, ub)
+    tree, by_id = build(spec, ub)
+    post = [nd["id"] for nd in trees.postorder(spec)]
+    kw = calc_kwargs(case)
+    obs = {}
+    try:
+        ret = tree.calc_node_ages(is_return_internal_node_ages_only=case["io"], **kw)
+        obs["calc"] = ["ok", [[i, un(by_id[i].age)] for i in post],
+                       [[i, un(by_id[i].edge.length)] for i in post],
+                       [un(v) for v in ret]]
+    except Exception as e:
+        aged = [by_id[i].age is not None for i in post]
+        k = sum(aged)
+        if aged != [True] * k + [False] * (len(post) - k):
+            raise RuntimeError("ages assigned out of post-order: %r" % (aged,))
+        obs["calc"] = ["err", cerr_enum(e), k]
+    tree2, _b2 = build(spec, ub)
+    if case["io"]:
+        obs["sorted"] = attempt(lambda: tree2.internal_node_ages(**kw), lambda l: [un(v) for v in l], cerr_enum)
+    else:
+        obs["sorted"] = attempt(lambda: tree2.node_ages(**kw), lambda l: [un(v) for v in l], cerr_enum)
+    if obs["calc"][0] == "ok":
+        skw = {"error_on_negative_edge_lengths": case["eon"]}
+        if not case["mn_default"]:
+            skw["minimum_edge_length"] = None if case["mn"] is None else case["mn"] * u
+
+        def run():
+            tree.set_edge_lengths_from_node_ages(**skw)
+            return dump_units(tree, spec, by_id, ub)
         obs["setlen"] = attempt(run)
     else:
         obs["setlen"] = None
@@ -508,7 +633,7 @@ def to_coq(case, obs):
 def to_coq1(case, obs):
     t = trees.c_tree(case["tree"])
     if case["kind"] == "ages":
-        cfg = "(mkCfg %s %s %s)" % (c_prec(case["prec"]), cbool(case["fmax"]), cbool(case["fmin"]))
+        cfg = "(mkCfg %s %s %s)" % (c_prec(case["prec"], ubits(case)), cbool(case["fmax"]), cbool(case["fmin"]))
         c = obs["calc"]
         if c[0] == "ok":
             o = "(AgesOk %s %s %s)" % (c_lzz(c[1]), clist([cpair(cz(i), copt(l, cz)) for i, l in c[2]]), c_lz(c[3]))
@@ -573,6 +698,18 @@ def tip_distances(spec):
     return out
 
 
+def newick_u(t, ub):
+    def f(n):
+        s = ""
+        if n["kids"]:
+            s = "(" + ",".join(f(k) for k in n["kids"]) + ")"
+        s += ("t%d" % n["taxon"]) if n["taxon"] is not None else ""
+        if n["len"] is not None:
+            s += ":%r" % (n["len"] * 2.0 ** -ub)
+        return s
+    return f(t) + ";"
+
+
 def first_child_path(nd):
     d = 0
     while nd["kids"]:
@@ -585,7 +722,7 @@ def oracle_ages(case, obs):
     spec = case["tree"]
     node, parent = index(spec)
     td = tip_distances(spec)
-    pu = prec_units(case["prec"])
+    pu = prec_units(case["prec"], ubits(case))
     forced = case["fmax"] or case["fmin"]
     c = obs["calc"]
     nonroot_none = [i for i, nd in node.items() if parent[i] is not None and nd["len"] is None]
@@ -618,8 +755,14 @@ def oracle_ages(case, obs):
             local = all(abs(first_child_path(nd) - (first_child_path(k) + (k["len"] or 0))) <= pu
                         for nd in node.values() for k in nd["kids"])
             bad = [i for i, s in spread.items() if s > pu][0]
+            ub = ubits(case)
             what = ("accepted at precision %d units although tip paths below node %d differ by %d units (%s)"
                     % (pu, bad, spread[bad], trees.newick(spec)))
+            if ub != 10 or max(max(v) for v in td.values()) > 10 ** 6:
+                what = ("calc_node_ages(ultrametricity_precision=%r) accepted %s although the tip paths below node %d "
+                        "differ by %r (%d units of 2**-%d; the precision is %d units)"
+                        % (prec_value(case["prec"])[1] if case["prec"] != "default" else "default 1e-5",
+                           newick_u(spec, ub), bad, spread[bad] * 2.0 ** -ub, spread[bad], ub, pu))
             return (what, KEY_DRIFT if local else "ultrametricity-violation-accepted")
         # round trip of the lengths
         sl = obs["setlen"]
@@ -882,7 +1025,9 @@ def search(ctx, budget_s):
     t0 = time.time()
     rng = random.Random(ctx.seed + 1717)
     n = 0
-    cases = fixed_cases() + c17_hist.fixed_hist_cases() + exhaustive_cases(4)
+    rs = random.Random(ctx.seed + 171)
+    cases = fixed_cases() + c17_hist.fixed_hist_cases() + [gen_scaled_ages_case(rs, 8) for _ in range(150)] \
+        + exhaustive_cases(4)
     while time.time() - t0 < budget_s and n < 20000:
         case = cases[n] if n < len(cases) else gen_case(rng, 10)
         n += 1
@@ -989,6 +1134,10 @@ def run(tier, seed, replay=None):
                       rule="random trees (1-%d leaves; ultrametric from random dyadic node ages, one or two edges perturbed by "
                            "precision-1/precision/precision+1 units, random non-ultrametric, None / negative lengths, "
                            "unifurcations, polytomies) x 18 precision values incl. None/False/negative/default x forcing options; "
+                           "a quarter of the ages cases are time-scale regimes: node-age steps x 1e3 / x 1e7 (ages up to ~4e8) with "
+                           "deviations of a few 2^-10 units at precisions 0 / 1e-9 / 1e-5 / 1e-3, and trees of height ~4 on a 2^-40 "
+                           "grid with deviations of 1 unit and ~1e-9 at precisions 0 / 1e-9 / 2e-9 / 1e-12 (all values exact in "
+                           "binary64; oracle: rejected iff some node's tip paths differ by more than the precision, in exact integers); "
                            "depth cases query num_lineages_at at node depths +-1 unit; stats cases cover every normalisation and "
                            "the child-reversed tree; 12%% of the cases are histories on one tree object (query group, 1-2 edits of the "
                            "lengths by scale_edges / assignment / set_edge_lengths_from_node_ages / reroot_at_node, query group again, "
